@@ -1813,3 +1813,34 @@ func ruleC15R7(c *Ctx) {
 			"UNDECIDED (counts as failure): "+why+". What a matcher matches is not decided by this analysis; the claim rests on the tag being delegated to the primitive its documentation names, and this constructor no longer does that (a fast path, cache or pre-filter needs a value-level argument this family cannot give)")
 	}
 }
+
+// R8 (added after seed c15d): whether `extract` applies to a record is decided by the pattern alone. The documented
+// behaviour is "match the key field against the pattern; the named captures that took part override the destination
+// fields" — also for an empty key field, which a pattern may well match (all-optional groups, `[0-9]*`): the captures
+// then clear their destinations. A shortcut that returns before the pattern is consulted (empty value, unset field, a
+// length test) replaces the regexp's decision by the module's own and leaves stale values. So in extractTransform.Transform
+// every path from the entry passes the pattern's FindStringSubmatchIndex on the key field's value; no guard is tolerated.
+func init() {
+	register("C15", "C15.R8", ruleC15R8)
+}
+
+func ruleC15R8(c *Ctx) {
+	fn := c.P.Fn("transform/textract.(*extractTransform).Transform")
+	isFind := func(s ssa.CallInstruction) bool {
+		f := s.Common().StaticCallee()
+		return f != nil && strings.HasPrefix(extName(f), "(*regexp.Regexp).Find") && fieldOf(s.Common().Args[0]) == "transform/textract.extractTransform.pattern"
+	}
+	sF := siteSumm(c.P, isFind)
+	sF.AllowEmptyGuards, sF.LoopsRunOnce = false, false
+	c.mustBeforeReturn("C15.R8", fn, entryOf(fn), sF, "every record's key field is matched against the pattern", "(*regexp.Regexp).Find…SubmatchIndex on extractTransform.pattern", fn.Pos(), nil)
+	// what is matched is the key field's value
+	for _, s := range c.sitesWhereR(fn, isFind) {
+		okArg := false
+		if len(s.Common().Args) > 1 {
+			if cl, ok := resolve(s.Common().Args[1]).(*ssa.Call); ok && cl.Common().StaticCallee() != nil && anchorOrExt(cl.Common().StaticCallee()) == "base.(LogFieldLocator).Get" {
+				okArg = fieldOf(cl.Common().Args[0]) == "transform/textract.extractTransform.keyLocator"
+			}
+		}
+		c.check(okArg, "C15.R8", fn, "the pattern is applied to the key field's value", s.Pos(), "pattern.Find…(keyLocator.Get(fields))", "the pattern is not applied to the value of the configured key field as it is")
+	}
+}
